@@ -450,7 +450,10 @@ def _fail_if_group_variables_not_constant_within_groups(data):
     for name, col in data.items():
         for level in exogenous_groupings:
             if name.endswith(f"_{level}"):
-                max_value = col.groupby(data[f"{level}_id"]).transform("max")
+                # Rows are matched by position, as everywhere else in the computation
+                # (a dictionary of Series need not share one index).
+                group_id = data[f"{level}_id"].to_numpy()
+                max_value = col.groupby(group_id).transform("max")
                 if not (max_value == col).all():
                     message = format_errors_and_warnings(
                         f"""
